@@ -59,6 +59,18 @@ pub fn plain<G: CurveGroup>(c: &Ctx<G>, t: &mut Tape<'_>, o: &mut Obs) -> R {
         same(&q, &want, "mul_assign", &cx)?;
         let got: G = no_panic("mul.affine", || aff * s)?;
         same(&got, &want, "mul.affine", &cx)?;
+        // the by-reference spellings of the same operators
+        let got: G = no_panic("mul.affine.ref", || aff * &s)?;
+        same(&got, &want, "mul.affine.ref", &cx)?;
+        let mut q = p;
+        no_panic("mul_assign.ref", || q *= &s)?;
+        same(&q, &want, "mul_assign.ref", &cx)?;
+        // the scalar's own big-integer form as the limb slice
+        let got = no_panic("mul_bigint.projective.bigint", || p.mul_bigint(s.into_bigint()))?;
+        same(&got, &want, "mul_bigint.projective.bigint", &cx)?;
+        let got = no_panic("mul_bigint.affine.bigint", || aff.mul_bigint(s.into_bigint()))?;
+        same(&got, &want, "mul_bigint.affine.bigint", &cx)?;
+        o.evals(4);
     }
     Ok(())
 }
@@ -67,12 +79,14 @@ pub fn plain<G: CurveGroup>(c: &Ctx<G>, t: &mut Tape<'_>, o: &mut Obs) -> R {
 pub fn wnaf<G: CurveGroup>(c: &Ctx<G>, wmax: u64, t: &mut Tape<'_>, o: &mut Obs) -> R {
     let (p, pc) = (c.pts)(t, false);
     let (k, kc) = gen_k(t, &c.r);
-    let w = t.range(2, wmax) as usize;
+    // mostly the usual windows; one case in twelve a wide one (table of up to 2^12 entries)
+    let w = if t.chance(1, 12) { t.range(wmax + 1, wmax + 5) as usize } else { t.range(2, wmax) as usize };
     let s = G::ScalarField::from(k.clone());
     o.show(|| format!("{}: wNAF w={} P={} [{}] k={} [{}]", c.name, w, p.into_affine(), pc, hx(&k), kc));
     o.class(pc);
     o.class(kc);
     o.class_if(w >= 7, "w>=7");
+    o.class_if(w as u64 > wmax, "w>wmax (wide window)");
     o.class_if(w == 2, "w=2");
     o.nt(!p.is_zero() && nontrivial_scalar(&k, &c.r));
     o.evals(5);
@@ -110,6 +124,12 @@ pub fn wnaf<G: CurveGroup>(c: &Ctx<G>, wmax: u64, t: &mut Tape<'_>, o: &mut Obs)
     };
     let r = no_panic("wnaf.short_table", || ctx.mul_with_table(&table[..short], &s))?;
     ensure!(r.is_none(), "wnaf.short_table.some", "Some(..) with {} of {} table entries [{}]", short, table.len(), cx());
+    // every window up to 63 is a legal context; with a window too wide for the table at hand the answer is None
+    // (never a panic, never a value computed from a table that lacks the digits)
+    let huge = t.range(w as u64 + 1, 63) as usize;
+    let r = no_panic("wnaf.huge_window", || WnafContext::new(huge).mul_with_table(&table, &s))?;
+    ensure!(r.is_none(), "wnaf.huge_window.some", "Some(..) for window {} with a table of {} entries [{}]", huge, table.len(), cx());
+    o.class_if(huge >= 33, "window>=33 with a short table => None");
     Ok(())
 }
 
@@ -117,12 +137,27 @@ const HINTS: [usize; 9] = [0, 1, 31, 32, 64, 256, 300, 2048, 5000];
 
 /// fixed-base batch multiplication with table-size hints unrelated to the slice length
 pub fn batch<G: CurveGroup>(c: &Ctx<G>, max_hint: usize, t: &mut Tape<'_>, o: &mut Obs) -> R {
+    batch_inner(c, max_hint, false, t, o)
+}
+
+/// table-size hints far above anything the plain relation uses: windows 11 and 13 (tables of 2^11 / 2^13 multiples
+/// per window), with full-size scalars so that the high table entries are actually looked up
+const WIDE_HINTS: [usize; 4] = [70000, 1 << 17, 1 << 19, 1 << 20];
+
+pub fn batch_wide<G: CurveGroup>(c: &Ctx<G>, t: &mut Tape<'_>, o: &mut Obs) -> R {
+    batch_inner(c, usize::MAX, true, t, o)
+}
+
+fn batch_inner<G: CurveGroup>(c: &Ctx<G>, max_hint: usize, wide: bool, t: &mut Tape<'_>, o: &mut Obs) -> R {
     let (p, pc) = (c.pts)(t, false);
     let modbits = G::ScalarField::MODULUS_BIT_SIZE as usize;
-    let len = match t.weighted(&[1, 2, 4]) {
+    // 32..40 scalars: the free `batch_mul` sizes its table from the slice length, so only such a batch takes it past
+    // the smallest window
+    let len = match t.weighted(if wide { &[0, 1, 3, 0] } else { &[2, 4, 8, 1] }) {
         0 => 0usize,
         1 => 1,
-        _ => t.range(2, 6) as usize,
+        2 => t.range(2, 6) as usize,
+        _ => t.range(32, 40) as usize,
     };
     // declared scalar size: either chosen first (scalars are then masked to it) or the batch's true bit length
     let size_mode = t.weighted(&[3, 2, 2, 3]);
@@ -141,7 +176,10 @@ pub fn batch<G: CurveGroup>(c: &Ctx<G>, max_hint: usize, t: &mut Tape<'_>, o: &m
     let truebits = ks.iter().map(|k| k.bits() as usize).max().unwrap_or(0);
     // documented precondition: no scalar is wider than the declared size (and the size is at least one bit)
     let size = if size_mode == 0 { truebits.max(1) } else { declared };
-    let hint = {
+    let hint = if wide {
+        o.class("wide table (hint >= 70000)");
+        WIDE_HINTS[t.idx(WIDE_HINTS.len())]
+    } else {
         let h = match t.weighted(&[2, 5, 2]) {
             0 => len,
             1 => HINTS[t.idx(HINTS.len())],
@@ -156,6 +194,7 @@ pub fn batch<G: CurveGroup>(c: &Ctx<G>, max_hint: usize, t: &mut Tape<'_>, o: &m
     o.class_if(size > modbits, "size>modulus-bits");
     o.class_if(size == truebits, "size=true-bit-length");
     o.class_if(hint != len, "hint!=len");
+    o.class_if(len >= 32, "len>=32 (free batch_mul with window > 3)");
     o.class_if(hint >= 32, "hint>=32(window>3)");
     o.nt(!p.is_zero() && hint != len && ks.iter().any(|k| nontrivial_scalar(k, &c.r) || (k.bits() as usize == size && *k > BigUint::one())));
     let want: Vec<G::Affine> = ks.iter().map(|k| ref_mul(&p, k).into_affine()).collect();
